@@ -81,10 +81,30 @@ Proof.
   cbn [flat_map]. rewrite vrun_app, esc_step by exact H1. rewrite IH by exact H2. cbn [rev]. rewrite <- app_assoc. reflexivity.
 Qed.
 
-(* escaped text: character data that decodes to the text *)
+(* escaped text contains no '>' at all, hence no ']]>' *)
+Lemma has_gt_free : forall nl quot s, has 62 (flat_map (esc nl quot) s) = false.
+Proof.
+  intros nl quot s. unfold has. induction s as [|x t IH]; [reflexivity|]. cbn [flat_map]. rewrite existsb_app, IH, orb_false_r.
+  unfold esc.
+  destruct (x =? 38) eqn:E38; [reflexivity|]. destruct (x =? 62) eqn:E62; [reflexivity|]. destruct (x =? 60) eqn:E60; [reflexivity|].
+  destruct (nl && (x =? 10)); [reflexivity|]. destruct (nl && (x =? 13)); [reflexivity|]. destruct (nl && (x =? 9)); [reflexivity|].
+  destruct (quot && (x =? 34)); [reflexivity|]. cbn [existsb]. rewrite orb_false_r. lia.
+Qed.
+Lemma no_gt_no_cdata_end : forall s, has 62 s = false -> has_cdata_end s = false.
+Proof.
+  induction s as [|c t IH]; intros H; [reflexivity|]. unfold has in H. cbn [existsb] in H. apply orb_false_elim in H.
+  destruct H as [_ H]. cbn [has_cdata_end]. rewrite (IH H), orb_false_r.
+  destruct t as [|d [|e u]]; try (rewrite andb_false_r; reflexivity).
+  unfold has in H. cbn [existsb] in H. apply orb_false_elim in H. destruct H as [_ H]. apply orb_false_elim in H. destruct H as [H _].
+  assert (E : (e =? 62) = false) by lia. rewrite E, !andb_false_r. reflexivity.
+Qed.
+
+(* escaped text: character data (no ']]>' in it) that decodes to the text *)
 Theorem escape_text_wellformed : forall s, forallb is_xml_char s = true -> text_parse (xml_escape s) = Some s.
 Proof.
-  intros s H. unfold text_parse. rewrite xml_escape_esc, vrun_esc by exact H. rewrite app_nil_r, rev_involutive. reflexivity.
+  intros s H. unfold text_parse. rewrite xml_escape_esc.
+  rewrite (no_gt_no_cdata_end _ (has_gt_free false false s)).
+  rewrite vrun_esc by exact H. rewrite app_nil_r, rev_involutive. reflexivity.
 Qed.
 
 (* ---- quoting -------------------------------------------------------------------------------------------------- *)
